@@ -168,11 +168,46 @@ Theorem C17_send_reflects_current_state : forall ops,
   (Forall (rop_ok udigit uspace) ops -> Forall sendable sent ->
    forall t buf chunks, nonempty_chunks chunks -> buf ++ concat chunks = rops_wire udigit uspace ops ++ t ->
    exists b' ch', recv_n udigit uspace (length sent) buf chunks = Some (map shown_of sent, b', ch') /\
-                  b' ++ concat ch' = t).
+                  b' ++ concat ch' = t) /\
+  (* (4) writes that FAIL.  send_reply raises UnicodeEncodeError (send_chk = None: a code
+     outside ASCII, a lone surrogate anywhere in the text -- first, middle or last line) before
+     it puts a single byte into the send buffer: rops_out, the send buffer of the one IO all
+     the writes go to, is exactly the encodings of the states whose write succeeded, for ANY
+     operations; and when those states are well formed the peer reads exactly them back. *)
+  (let W := filter can_encode sent in
+   rops_out udigit uspace fresh_reply ops = concat (map wire_of W) /\
+   (Forall (reply_inv udigit uspace) W -> Forall sendable W ->
+    forall t buf chunks, nonempty_chunks chunks ->
+      buf ++ concat chunks = rops_out udigit uspace fresh_reply ops ++ t ->
+      exists b' ch', recv_n udigit uspace (length W) buf chunks = Some (map shown_of W, b', ch') /\
+                     b' ++ concat ch' = t)).
 Proof.
   intros ops sent. split; [intros pre post E; subst ops sent; apply sent_at|].
   split; [intros r e _ H; apply (esc_class r e H)|].
-  intros Hok Hsd t buf chunks Hne Hs.
-  exact (sends_roundtrip udigit uspace udigit_46 udigit_48 uspace_32 uspace_10 uspace_13 digit_space_disjoint udigit_245 ops t buf chunks Hok Hsd Hne Hs).
+  split.
+  - intros Hok Hsd t buf chunks Hne Hs.
+    exact (sends_roundtrip udigit uspace udigit_46 udigit_48 uspace_32 uspace_10 uspace_13 digit_space_disjoint udigit_245 ops t buf chunks Hok Hsd Hne Hs).
+  - split; [apply rops_out_eq|]. intros Hi Hsd t buf chunks Hne Hs.
+    exact (out_roundtrip udigit uspace udigit_46 udigit_48 uspace_32 uspace_10 uspace_13 digit_space_disjoint udigit_245 ops t buf chunks Hi Hsd Hne Hs).
 Qed.
 Print Assumptions C17_send_reflects_current_state.
+
+(* recv_reply keeps no state between calls but recv_buffer (the model's recv_reply is a
+   function of the buffer and of what the socket still delivers, nothing else).  After a
+   bad reply -- a line that is not a reply line, another code inside a multi-line reply,
+   invalid UTF-8 -- at least one byte has been consumed (never the same refusal for ever),
+   what is left in recv_buffer plus the unread input is a suffix of the stream, and ANY
+   library-written replies that follow are returned exactly, in order, nothing of the
+   refused reply glued in front. *)
+Theorem C17_state_is_the_buffer : forall buf chunks b' ch',
+  nonempty_chunks chunks ->
+  reply_recv udigit uspace buf chunks = BadReply b' ch' ->
+  (exists pre, pre <> [] /\ buf ++ concat chunks = pre ++ b' ++ concat ch') /\
+  nonempty_chunks ch' /\
+  forall rs t, Forall (good_reply uspace) rs -> b' ++ concat ch' = concat (map (wire1 udigit uspace) rs) ++ t ->
+    exists b'' ch'', recv_n udigit uspace (length rs) b' ch' = Some (map (shown udigit uspace) rs, b'', ch'') /\
+                     b'' ++ concat ch'' = t.
+Proof.
+  exact (bad_then_replies udigit uspace udigit_46 udigit_48 uspace_32 uspace_10 uspace_13 digit_space_disjoint).
+Qed.
+Print Assumptions C17_state_is_the_buffer.
